@@ -266,6 +266,11 @@ func runB(c BCase, rec *h.Rec) {
 					opErr = err
 					return
 				}
+				if op.K == "addref" && op.I%3 == 0 {
+					// a tag the library stores verbatim: same-named references of
+					// different headers then differ in their extra tags
+					r.Set(sam.NewTag("AN"), "alt"+pool[op.N])
+				}
 				opErr = hd.AddReference(r)
 				if opErr == nil && removed {
 					removeThenAdd = true
